@@ -12,7 +12,10 @@ RULE = ("seeded generator of operation sequences against a real geckoPacketConn 
         "next to the 8-bit/32-bit wrap and a 258-message run that reuses an id held by a stale entry; (wild) mutated frames, garbage, "
         "sleeps across gc ticks, direct gcExpired calls at deadline-1/deadline/deadline+1, small caller buffers; (percap) one source "
         "opening more than 8 messages, then expiry/completion and re-use; (flood) >4096 keys from hundreds of sources with distinct "
-        "and with tied deadlines (the evicted key is recorded and given to the model as the oracle); decodeFrame on random/structured "
+        "and with tied deadlines (the evicted key is recorded and given to the model as the oracle); (ownold) the table reaches the "
+        "4096 cap while the oldest entries belong to the 1-3 sources that open the next messages (their own oldest entry is the one "
+        "evicted), interleaved with cross-source evictions, completions and duplicates, then full expiry and 8+1 fresh opens per "
+        "source (admitted iff the source really holds < 8 entries; counters = census at every eviction step); decodeFrame on random/structured "
         "bytes; option validation. Non-trivial = a reassembled packet was emitted, or a cap/eviction/expiry was reached, or a decode/"
         "config verdict. Distinct = distinct JSON case.")
 ASSUMPTIONS = [
@@ -216,6 +219,124 @@ def gen_flood(rng, nsrc, per, ties, extra):
             "must": [], "distinct": False}
 
 
+def gen_ownold(rng, per, ties, fills=1, maxgap=20):
+    """global cap reached while the OLDEST entries belong to the very source(s) that open the next messages.
+
+    Per fill: (A) an "old layer": 1-3 victim sources open 1..7 messages each, interleaved in age with small groups of
+    filler entries; (B) filler sources (per messages each) fill the table up to the cap (or 1-2 short of it);
+    (C) eviction phase, long enough to consume the old layer: victims open new messages (the entry evicted is
+    their own oldest one whenever a victim entry heads the age order), new filler keys open (cross-source eviction of
+    a victim entry), victims complete / duplicate chunks, pass-through packets, no-op gc; (D) everything expires
+    (gc ticks, or direct gcExpired, optionally after a partial sweep at a victim deadline); (E) every victim opens
+    8 messages (all must be admitted), a 9th (refused), completes some, opens again.  The expectations (admitted iff
+    the table really holds < 8 entries of the source; counters = census; perSource empty after expiry) are evaluated
+    by the harness on the real table and by the model through the per-step digest."""
+    CAP = 4096
+    nv = rng.randint(1, 3)
+    victims = list(range(nv))
+    ops = []
+    ids = {}
+    for v in victims:
+        l = list(range(256))
+        rng.shuffle(l)
+        ids[v] = l
+    pend = {v: [] for v in victims}      # (mid, tot, idx sent) the generator believes pending (approximate)
+    nfill = [0]
+    fbase = 100 + rng.randrange(1000)
+    now = [0]
+
+    def emit(o):
+        now[0] += o.get("d", 0)
+        ops.append(o)
+
+    def filler(d):
+        n = nfill[0]
+        nfill[0] += 1
+        s, m = fbase + n // per, (n % per) * 37 % 256
+        emit({"o": "p", "d": d, "s": s, "h": raw_frame(m, rng.randrange(2), rng.choice([2, 2, 3, 8]), 0, bytes([s % 256])).hex()})
+
+    def vopen(v, d):
+        mid = ids[v].pop()
+        if not ids[v]:
+            ids[v] = list(range(256))
+        tot = rng.choice([2, 2, 2, 3, 8])
+        idx = rng.randrange(tot)
+        pend[v].append((mid, tot, idx))
+        emit({"o": "p", "d": d, "s": v, "h": raw_frame(mid, idx, tot, rng.choice([0, 0, 3]), bytes([0xC0 | v, mid])).hex()})
+
+    def vcomplete(v):
+        if not pend[v]:
+            return
+        mid, tot, idx = pend[v].pop(rng.randrange(len(pend[v])))
+        for i in range(tot):
+            if i != idx:
+                emit({"o": "p", "d": rng.choice([0, 1]), "s": v, "h": raw_frame(mid, i, tot, 0, bytes([i, mid])).hex()})
+
+    for _fill in range(fills):
+        # (A) old layer
+        toks = [v for v in victims for _ in range(rng.randint(1, 7))]
+        rng.shuffle(toks)
+        opened = 0
+        for v in toks:
+            vopen(v, 1)
+            opened += 1
+            g = rng.choice([0, 0, 1, 2, 5, maxgap])
+            for j in range(g):
+                filler(1 if (j == 0 or not ties) else 0)
+                opened += 1
+        old = opened
+        # (B) bulk fill
+        slack = rng.choice([0, 0, 1, 2])
+        first = True
+        while opened < CAP - slack:
+            filler(1 if (first or not ties or rng.random() < 0.1) else 0)
+            first = False
+            opened += 1
+        # (C) evictions
+        for _ in range(2 * old + 40):
+            r = rng.random()
+            v = rng.choice(victims)
+            if r < 0.45:
+                vopen(v, 1)
+            elif r < 0.75:
+                filler(rng.choice([0, 1]) if ties else 1)
+            elif r < 0.85:
+                vcomplete(v)
+            elif r < 0.90 and pend[v]:
+                mid, tot, idx = rng.choice(pend[v])
+                emit({"o": "p", "d": 1, "s": v, "h": raw_frame(mid, idx, tot, 0, b"dup").hex()})
+            elif r < 0.95:
+                emit({"o": "p", "d": 1, "s": rng.choice(victims + [fbase]), "h": short_pkt(rng).hex()})
+            else:
+                emit({"o": "g", "d": 1, "t": rng.choice([0, now[0], TTL])})
+        # (D) expiry
+        r = rng.random()
+        if r < 0.3:
+            emit({"o": "g", "d": 1, "t": TTL + rng.randrange(1, now[0] + 1)})      # partial sweep first
+        if r < 0.65:
+            dd = TTL + PERIOD
+            emit({"o": "t", "d": dd})
+        else:
+            emit({"o": "g", "d": 1, "t": 10**13})
+        for v in victims:
+            pend[v] = []
+        # (E) after expiry nobody is locked out and no counter is left behind
+        for v in victims:
+            for _ in range(8):
+                vopen(v, rng.choice([0, 1]))
+            vopen(v, 1)                       # the 9th: refused
+            pend[v].pop()
+            for _ in range(rng.randint(0, 3)):
+                vcomplete(v)
+                vopen(v, 1)
+        if _fill + 1 < fills or rng.random() < 0.5:
+            emit({"o": "g", "d": 1, "t": 10**14})
+            for v in victims:
+                pend[v] = []
+    return {"k": "seq", "fam": "ownold", "omin": 20, "omax": 60, "rbuf": 2048, "senders": [], "msgs": [], "ops": ops,
+            "must": [], "distinct": False}
+
+
 def gen_dec(rng):
     n = rng.choice([0, 1, 4, 5, 5, 6, 7, 8, 12, 20])
     b = bytearray(rng.randrange(256) for _ in range(n))
@@ -255,9 +376,12 @@ def gen(rng, tier):
     if tier == "quick":
         cases.append(gen_flood(rng, 600, 8, False, 300))
         cases.append(gen_flood(rng, 700, 7, True, 300))
+        cases.append(gen_ownold(rng, rng.choice([7, 8]), rng.random() < 0.5))
     else:
         for j in range(8):
             cases.append(gen_flood(rng, rng.choice([600, 800, 1200, 2500]), rng.choice([2, 4, 8, 9]), j % 2 == 1, 1500))
+        for j in range(6):
+            cases.append(gen_ownold(rng, rng.choice([1, 2, 5, 7, 8]), j % 2 == 1, fills=1 + (j % 3 == 2), maxgap=rng.choice([5, 20, 200])))
     return cases
 
 
@@ -320,9 +444,11 @@ def to_coq(c, o):
     return None
 
 
-def feats(o):
+def feats(o, c=None):
     st = o.get("steps") or []
     f = []
+    if c is not None and any(r[5] > 0 and op.get("s") == r[5] - 1 for r, op in zip(st, c.get("ops") or [])):
+        f.append("selfevict")        # the global-cap eviction removed an entry of the source that was opening a message
     if any(r[0] > 0 for r in st):
         f.append("emit")
     if any(r[4] >= 8 for r in st):
@@ -342,7 +468,7 @@ def klass(c, o):
         return "cfg:" + ("ok" if o.get("cfg") else "rejected")
     if k == "dec":
         return "dec:" + ("ok" if "dec" in o else str(o.get("err")))
-    return "seq:" + c.get("fam", "?") + "".join("+" + x for x in feats(o))
+    return "seq:" + c.get("fam", "?") + "".join("+" + x for x in feats(o, c))
 
 
 def nontrivial(c, o):
